@@ -51,10 +51,12 @@ func Decide(body []byte, script *svc.Script) (out Outcome) {
 }
 
 func DecideDM(dm *model.DecisionMaker, script *svc.Script) (out Outcome) {
-	svc.SetScript(script)
+	if script != nil {
+		svc.SetScript(script)
+	}
 	defer func() {
-		svc.SetScript(nil)
 		if script != nil {
+			svc.SetScript(nil)
 			out.Streams = script.Streams
 		}
 		if e := recover(); e != nil {
